@@ -191,7 +191,58 @@ func genLength(r *rng.R, signed, perc bool) string {
 }
 
 // genExplicit returns an explicit value text for the property.
+// genTuple: generated values for the tuple / list / function valued length properties
+func genTuple(r *rng.R, name string) string {
+	L := func(signed, perc bool) string { return genLength(r, signed, perc) }
+	switch name {
+	case "transform":
+		switch r.Intn(4) {
+		case 0:
+			return "translate(" + L(true, true) + ", " + L(true, true) + ")"
+		case 1:
+			return "translateX(" + L(true, true) + ") rotate(0.5rad)"
+		case 2:
+			return "scale(2) translateY(" + L(true, false) + ")"
+		}
+		return "translate(" + L(true, false) + ") skew(10deg, 5deg) translate(" + L(true, true) + ", " + L(true, false) + ")"
+	case "transform-origin", "background-position", "object-position":
+		return L(true, true) + " " + L(true, true)
+	case "background-size":
+		if r.P(1, 3) {
+			return L(false, true) + " auto"
+		}
+		return L(false, true) + " " + L(false, true) + ", " + L(false, false) + " " + L(false, true)
+	case "border-spacing":
+		return L(false, false) + " " + L(false, false)
+	case "border-bottom-left-radius", "border-bottom-right-radius", "border-top-left-radius", "border-top-right-radius":
+		return L(false, true) + " " + L(false, true)
+	case "clip":
+		return "rect(" + L(true, false) + ", " + L(true, false) + ", auto, " + L(true, false) + ")"
+	case "border-image-outset":
+		return L(false, false) + " " + L(false, false) + " 2 " + L(false, false)
+	case "grid-auto-columns", "grid-auto-rows":
+		return rng.Pick(r, L(false, true), "minmax("+L(false, false)+", "+L(false, false)+")", L(false, false)+" 1fr "+L(false, true))
+	case "grid-template-columns", "grid-template-rows":
+		return rng.Pick(r, L(false, false)+" 1fr "+L(false, true), "[a] "+L(false, false)+" [b] minmax("+L(false, false)+", 2fr)", "repeat(2, "+L(false, false)+" "+L(false, true)+")")
+	case "background-image":
+		if r.Bool() {
+			return "linear-gradient(to right, red " + L(false, true) + ", blue " + L(false, false) + ")"
+		}
+		return "radial-gradient(" + L(false, false) + " " + L(false, false) + " at " + L(false, true) + " " + L(false, false) + ", red, blue " + L(false, false) + ")"
+	case "size":
+		return L(false, false) + " " + L(false, false)
+	case "bleed-left", "bleed-right", "bleed-top", "bleed-bottom":
+		return L(false, false)
+	}
+	return ""
+}
+
 func (u *universe) genExplicit(r *rng.R, pi propInfo) string {
+	if r.P(1, 2) {
+		if t := genTuple(r, pi.name); t != "" && validate1(pi.name, t) != nil {
+			return t
+		}
+	}
 	useSample := len(pi.samples) > 0 && (pi.numeric == "" || r.P(1, 8))
 	if useSample {
 		return pi.samples[r.Intn(len(pi.samples))]
@@ -276,6 +327,7 @@ type node struct {
 }
 
 type doc struct {
+	kindBad []string // styles whose Go type (ComputedStyle / AnonymousStyle) is not the expected one
 	nodes  []*node
 	src    string
 	fonts  bool
@@ -320,7 +372,7 @@ func (u *universe) genDoc(r *rng.R, fonts bool) *doc {
 	add := func(parent int, kind, tag string, depth int) *node {
 		n := &node{id: len(d.nodes), parent: parent, kind: kind, tag: tag, depth: depth}
 		d.nodes = append(d.nodes, n)
-		if parent >= 0 && (kind == "elem") {
+		if parent >= 0 && (kind == "elem" || kind == "bare") {
 			d.nodes[parent].children = append(d.nodes[parent].children, n.id)
 		}
 		return n
@@ -341,6 +393,12 @@ func (u *universe) genDoc(r *rng.R, fonts bool) *doc {
 			n.declText = u.genDecls(r, q, false)
 		}
 		elems = append(elems, n.id)
+	}
+	// bare elements: no id, no class, no style attribute, matched by no rule at all (plus <head>)
+	add(0, "bare", "head", 1)
+	for i, nb := 0, r.Range(0, 2); i < nb; i++ {
+		par := d.nodes[elems[r.Intn(len(elems))]]
+		add(par.id, "bare", fmt.Sprintf("x-b%d", i), par.depth+1)
 	}
 	// one rule shared by several elements (one declared value object for all of them)
 	if r.P(2, 3) {
@@ -406,6 +464,12 @@ func (u *universe) genDoc(r *rng.R, fonts bool) *doc {
 	var emit func(id int)
 	emit = func(id int) {
 		n := d.nodes[id]
+		if n.kind == "bare" {
+			if n.tag != "head" {
+				fmt.Fprintf(&b, "<%s>b</%s>", n.tag, n.tag)
+			}
+			return
+		}
 		cls := ""
 		if n.shared {
 			cls = ` class="s"`
@@ -495,12 +559,14 @@ func (d *doc) styles0(tc *textCtx, pub *[]func() pr.ElementStyle) ([]pr.ElementS
 	sf := tree.GetAllComputedStyles(h, nil, false, fc, nil, nil, nil, false, ctx)
 	sf.SetPageComputedStylesT(pageType, h)
 	els := map[string]*utils.HTMLNode{}
+	tags := map[string]*utils.HTMLNode{}
 	it := h.Root.Iter()
 	for it.HasNext() {
 		e := it.Next()
 		if id := e.Get("id"); id != "" {
 			els[id] = e
 		}
+		tags[e.Data] = e
 	}
 	out := make([]pr.ElementStyle, len(d.nodes))
 	*pub = make([]func() pr.ElementStyle, len(d.nodes))
@@ -513,6 +579,12 @@ func (d *doc) styles0(tc *textCtx, pub *[]func() pr.ElementStyle) ([]pr.ElementS
 			e := els[fmt.Sprintf("n%d", n.id)]
 			if e == nil {
 				return nil, fmt.Errorf("element n%d not found", n.id)
+			}
+			el = e
+		case "bare":
+			e := tags[n.tag]
+			if e == nil {
+				return nil, fmt.Errorf("bare element <%s> not found", n.tag)
 			}
 			el = e
 		case "before", "after":
@@ -533,7 +605,7 @@ func (d *doc) styles0(tc *textCtx, pub *[]func() pr.ElementStyle) ([]pr.ElementS
 			return nil, fmt.Errorf("no style for node %d (%s)", n.id, n.kind)
 		}
 		if n.kind == "anon" != tree.VerifC04IsAnonymous(st) {
-			return nil, fmt.Errorf("node %d (%s): unexpected style type %T", n.id, n.kind, st)
+			d.kindBad = append(d.kindBad, fmt.Sprintf("style %d (%s, declarations %q, shared rule %v) is a %T", n.id, n.kind, n.declText, n.shared, st))
 		}
 		out[n.id] = st
 	}
@@ -744,6 +816,7 @@ func Replay(path string, modelPath, repo string, out *res.Result) error {
 	directedStyleFor(out)
 	directedShared(out)
 	directedFontRelativeTuples(out)
+	directedRem(out)
 	fonts, err := render.NewFonts(repo)
 	if err != nil {
 		return err
@@ -852,6 +925,7 @@ func Run(tier string, seed uint64, modelPath, repo string, out *res.Result) erro
 	directedStyleFor(out)
 	directedShared(out)
 	directedFontRelativeTuples(out)
+	directedRem(out)
 
 	fonts, err := render.NewFonts(repo)
 	if err != nil {
@@ -928,6 +1002,11 @@ func (u *universe) runDoc(m *mp.Model, r *rng.R, d *doc, fonts text.FontConfigur
 	if err != nil {
 		return err
 	}
+	for _, kb := range d.kindBad {
+		out.Add(res.Finding{Kind: "judge", Op: "judge:style-kind", Input: map[string]interface{}{"html": d.src, "fonts": d.fonts}, Impl: kb,
+			Reason: "elements, pseudo-elements and page contexts get a ComputedStyle (computed values), only anonymous boxes an AnonymousStyle", Seed: caseSeed})
+	}
+	d.kindBad = nil
 	N := int(pr.NbProperties)
 	// run A: property-major, styles in creation order
 	valA := make([][]pr.CssProperty, len(d.nodes))
@@ -1009,12 +1088,14 @@ func (u *universe) runDoc(m *mp.Model, r *rng.R, d *doc, fonts text.FontConfigur
 	// ex / ch ratios as the real text engine measures them
 	g := &registry{tags: map[string]int{}}
 	var ns []sx.X
+	exs, chs := make([]float64, len(d.nodes)), make([]float64, len(d.nodes))
 	for _, n := range d.nodes {
 		ex, ch := 1.0, 1.0
 		if d.fonts && n.kind != "anon" {
 			ex = float64(text.CharacterRatio(stA[n.id], stA[n.id].Cache(), false, fonts))
 			ch = float64(text.CharacterRatio(stA[n.id], stA[n.id].Cache(), true, fonts))
 		}
+		exs[n.id], chs[n.id] = ex, ch
 		ns = append(ns, nodeX(g, n, ex, ch))
 	}
 	nodesX := sx.L(ns...)
@@ -1089,6 +1170,10 @@ func (u *universe) runDoc(m *mp.Model, r *rng.R, d *doc, fonts text.FontConfigur
 		}
 		out.Evaluations += N - 1
 		out.Nontrivial += nt
+	}
+	// 1b. the generic length traversal on every explicit value of a shape-preserving length computer
+	if err := u.lengthsPass(m, d, valA, exs, chs, input, out, caseSeed); err != nil {
+		return err
 	}
 	// 2. the model's cached get on a prefix of the shuffled sequence
 	k := seqLen
@@ -1335,22 +1420,34 @@ var wrapperProps = []struct{ prop, value string }{
 }
 
 func directedLayoutInherit(out *res.Result, fonts text.FontConfiguration, r *rng.R, tier string) {
-	n := 24
+	n := 64
 	if tier == "thorough" {
-		n = 400
+		n = 800
 	}
 	parents := []string{"table", "inline-table", "flex", "inline-flex", "block", "inline-block", "grid", "list-item"}
 	children := map[string][]string{
-		"table": {"table-cell", "table-row", "block", "table-caption"}, "inline-table": {"table-cell", "table-row"},
-		"flex": {"block", "inline"}, "inline-flex": {"block"}, "block": {"block", "inline"}, "inline-block": {"block"}, "grid": {"block"}, "list-item": {"block"},
+		"table":        {"table-cell", "table-row", "block", "table-caption", "table-row-group", "table-header-group", "table-footer-group", "::before", "::after"},
+		"inline-table": {"table-cell", "table-row", "table-caption", "table-row-group", "::before"},
+		"flex":         {"block", "inline", "::before"}, "inline-flex": {"block", "::after"}, "block": {"block", "inline", "::before"}, "inline-block": {"block"},
+		"grid": {"block", "::before"}, "list-item": {"block", "::after"},
 	}
 	for i := 0; i < n; i++ {
 		cr := r.Sub()
 		pd := parents[i%len(parents)]
 		cd := children[pd][cr.Intn(len(children[pd]))]
+		pseudo := ""
+		if strings.HasPrefix(cd, "::") {
+			pseudo, cd = cd[2:], "block"
+		}
 		var pdecl, cdecl []string
 		var props []string
-		for _, wp := range wrapperProps {
+		cands := wrapperProps
+		if pseudo != "" || cd == "table-caption" || cd == "block" || cd == "inline" {
+			// margins: not on internal table boxes, whose own margins StyleFor.Get overrides (KF04-2)
+			cands = append(append([]struct{ prop, value string }{}, wrapperProps...),
+				struct{ prop, value string }{"margin-top", "11px"}, struct{ prop, value string }{"margin-left", "2em"}, struct{ prop, value string }{"margin-bottom", "5pt"})
+		}
+		for _, wp := range cands {
 			if cr.P(1, 2) {
 				pdecl = append(pdecl, wp.prop+": "+wp.value)
 				cdecl = append(cdecl, wp.prop+": inherit")
@@ -1360,8 +1457,16 @@ func directedLayoutInherit(out *res.Result, fonts text.FontConfiguration, r *rng
 		if len(props) == 0 {
 			continue
 		}
-		src := fmt.Sprintf(`<style>@page { size: 400px 300px; margin: 0 } #t { display: %s; %s } #c { display: %s; %s }</style><body><div id="t"><div id="c">x</div><div>y</div></div><p>z</p></body>`,
-			pd, strings.Join(pdecl, "; "), cd, strings.Join(cdecl, "; "))
+		childSel, childEl := "#c", `<div id="c">x</div>`
+		if pseudo != "" {
+			childSel, childEl = "#t::"+pseudo, `<div id="c">x</div>`
+			cdecl = append(cdecl, "content: 'p'")
+		}
+		src := fmt.Sprintf(`<style>@page { size: 400px 300px; margin: 0 } #t { display: %s; %s } %s { display: %s; %s }</style><body><div id="t">%s<div>y</div></div><p>z</p></body>`,
+			pd, strings.Join(pdecl, "; "), childSel, cd, strings.Join(cdecl, "; "), childEl)
+		if pseudo != "" {
+			cd = "::" + pseudo
+		}
 		// expected: the computed values of the parent element, from the styles alone (nothing laid out)
 		want := map[string]string{}
 		var got map[string]string
@@ -1388,7 +1493,11 @@ func directedLayoutInherit(out *res.Result, fonts text.FontConfiguration, r *rng
 			}
 			for _, pg := range pages {
 				for _, b := range bo.Descendants(pg) {
-					if el := b.Box().Element; el != nil && b.Box().PseudoType == "" && !b.Box().IsTableWrapper && (*utils.HTMLNode)(el).Get("id") == "c" && got == nil {
+					wantID := "c"
+					if pseudo != "" {
+						wantID = "t"
+					}
+					if el := b.Box().Element; el != nil && b.Box().PseudoType == pseudo && !b.Box().IsTableWrapper && (*utils.HTMLNode)(el).Get("id") == wantID && got == nil {
 						got = map[string]string{}
 						for _, p := range props {
 							got[p] = sprint(b.Box().Style.Get(pr.PropsFromNames[p].Key()))
@@ -1406,14 +1515,14 @@ func directedLayoutInherit(out *res.Result, fonts text.FontConfiguration, r *rng
 			out.Hit("directed:layout-inherit:child-box-not-found")
 			continue
 		}
-		out.Hit("directed:layout-inherit:" + pd)
+		out.Hit("directed:layout-inherit:" + pd + ">" + cd)
 		out.Evaluations += len(props)
 		out.Nontrivial += len(props)
 		for _, p := range props {
 			if got[p] != want[p] {
 				out.Add(res.Finding{Kind: "judge", Op: "judge:inherit-after-layout", Input: src, Impl: p + ": inherit on #c after layout = " + got[p],
 					Model: "computed value of the parent element #t = " + want[p], Reason: "`inherit` must give the parent element's computed value; building / laying out the boxes must not change it",
-					Key: p + "@" + pd, Seed: cr.Seed()})
+					Key: p + "@" + pd + ">" + cd, Seed: cr.Seed()})
 			}
 		}
 	}
@@ -1481,4 +1590,164 @@ func directedFontRelativeTuples(out *res.Result) {
 				Model: fmt.Sprintf("px lengths %v", c.want), Reason: "em / ex lengths must be made absolute with the element's own computed font size (10px)", Key: c.key})
 		}
 	}
+}
+
+// directedRem: rem is relative to the ROOT element's computed font size on every kind of style
+// (descendants, pseudo-elements, page and margin-box contexts), and to the initial 16px on the root's
+// own font-size.
+func directedRem(out *res.Result) {
+	src := `<html><head><style>html { font-size: 10px } #a { margin-left: 2rem; font-size: 3rem } #a::before { content: 'x'; padding-left: 2rem; font-size: 2rem }
+@page { margin-top: 2rem; font-size: 1.5rem; @top-left { content: 'm'; width: 2rem } }</style></head><body><div id="a"><span id="b" style="text-indent: 1.5rem; line-height: 2rem">x</span></div></body></html>`
+	srcRoot := `<html style="font-size: 2rem; margin-left: 1rem"><body>x</body></html>`
+	type exp struct {
+		where, prop string
+		want      float64
+	}
+	var got, main []string
+	check := func(where string, st pr.ElementStyle, prop string, want float64) {
+		out.Evaluations++
+		out.Nontrivial++
+		out.Hit("directed:rem")
+		if st == nil {
+			got = append(got, where+": no style")
+			return
+		}
+		v, _ := st.Get(pr.PropsFromNames[prop].Key()).(pr.DimOrS)
+		if math.Abs(float64(v.Value)-want) > 1e-4 {
+			got = append(got, fmt.Sprintf("%s %s = %v, expected %vpx", where, prop, v, want))
+		}
+	}
+	oc := render.Guard(30*time.Second, func() {
+		h, err := tree.NewHTML(utils.InputString(src), "", nil, "")
+		if err != nil {
+			return
+		}
+		sf := tree.GetAllComputedStyles(h, nil, false, nil, nil, nil, nil, false, nil)
+		sf.SetPageComputedStylesT(pageType, h)
+		it := h.Root.Iter()
+		for it.HasNext() {
+			e := it.Next()
+			switch e.Get("id") {
+			case "a":
+				check("#a", tree.VerifC04RawStyle(sf, e, ""), "margin-left", 20)
+				check("#a", tree.VerifC04RawStyle(sf, e, ""), "font-size", 30)
+				check("#a::before", tree.VerifC04RawStyle(sf, e, "before"), "padding-left", 20)
+				check("#a::before", tree.VerifC04RawStyle(sf, e, "before"), "font-size", 20)
+			case "b":
+				check("#b", tree.VerifC04RawStyle(sf, e, ""), "text-indent", 15)
+				check("#b", tree.VerifC04RawStyle(sf, e, ""), "line-height", 20)
+			}
+		}
+		check("@page", tree.VerifC04RawStyle(sf, pageType, ""), "margin-top", 20)
+		check("@page", tree.VerifC04RawStyle(sf, pageType, ""), "font-size", 15)
+		check("@page @top-left", tree.VerifC04RawStyle(sf, pageType, "@top-left"), "width", 20)
+		h2, err := tree.NewHTML(utils.InputString(srcRoot), "", nil, "")
+		if err != nil {
+			return
+		}
+		sf2 := tree.GetAllComputedStyles(h2, nil, false, nil, nil, nil, nil, false, nil)
+		check("html (root, font-size: 2rem)", tree.VerifC04RawStyle(sf2, h2.Root, ""), "font-size", 32)
+		main, got = got, nil
+		check("html (root, margin-left: 1rem)", tree.VerifC04RawStyle(sf2, h2.Root, ""), "margin-left", 32)
+	})
+	if !oc.OK() {
+		out.Add(res.Finding{Kind: "crash", Op: "crash:directed-rem", Input: src, Reason: oc.Panic, Key: oc.Site})
+		return
+	}
+	if len(main) > 0 {
+		out.Add(res.Finding{Kind: "judge", Op: "judge:rem", Input: src + "\n" + srcRoot, Impl: strings.Join(main, "; "),
+			Reason: "rem lengths are relative to the root element's computed font size (10px here; 16px initial for the root's own font-size)", Key: "rem"})
+	}
+	if len(got) > 0 {
+		out.Add(res.Finding{Kind: "judge", Op: "judge:rem", Input: srcRoot, Impl: strings.Join(got, "; "),
+			Reason: "CSS Values 3 §5.1.1: rem is the computed font-size of the root element; only on the root's own font-size property does it refer to the initial value", Key: "root-other-property"})
+	}
+}
+
+// lengthsPass: computeLengths(declared value, font context of the element) vs the real computed value,
+// for every explicit declaration of a length-carrying, shape-preserving computer function.
+func (u *universe) lengthsPass(m *mp.Model, d *doc, valA [][]pr.CssProperty, exs, chs []float64,
+	input func(*node, pr.KnownProp) map[string]interface{}, out *res.Result, caseSeed uint64,
+) error {
+	type item struct {
+		n *node
+		p pr.KnownProp
+	}
+	var items []item
+	var reqs []sx.X
+	rootFS, _ := valA[0][pr.PFontSize].(pr.DimOrS)
+	for _, n := range d.nodes {
+		if n.kind == "anon" {
+			continue
+		}
+		fs, ok := valA[n.id][pr.PFontSize].(pr.DimOrS)
+		if !ok {
+			continue
+		}
+		rfs := float64(rootFS.Value)
+		if n.parent < 0 {
+			rfs = float64(pr.InitialValues.GetFontSize().Value) // the code's choice for the root element (KF04-6)
+		}
+		for p, dv := range n.decls {
+			fn := u.fnNames[p]
+			cv, isVal := dv.(pr.CssProperty)
+			if !isVal || !genericComputers[fn] {
+				continue
+			}
+			decl := lvOf(cv)
+			if decl.Head() == "k" && (fn == "wordSpacing" || fn == "bleed") {
+				continue // normal / auto are replaced by a length: not a traversal
+			}
+			items = append(items, item{n, p})
+			reqs = append(reqs, sx.L(sx.R(float64(fs.Value)), sx.R(rfs), sx.R(exs[n.id]), sx.R(chs[n.id]), decl))
+		}
+	}
+	if len(items) == 0 {
+		return nil
+	}
+	// deterministic order (n.decls is a map)
+	idx := make([]int, len(items))
+	for i := range idx {
+		idx[i] = i
+	}
+	sort.Slice(idx, func(a, b int) bool {
+		ia, ib := items[idx[a]], items[idx[b]]
+		if ia.n.id != ib.n.id {
+			return ia.n.id < ib.n.id
+		}
+		return ia.p < ib.p
+	})
+	var sreqs []sx.X
+	for _, i := range idx {
+		sreqs = append(sreqs, reqs[i])
+	}
+	ans, err := m.Ask(sx.L(sx.A("lens"), sx.L(sreqs...)))
+	if err != nil {
+		return err
+	}
+	if ans.Head() != "ok" || len(ans.Xs) != len(items)+1 {
+		return fmt.Errorf("model rejected the lens request (seed %d): %.300s", caseSeed, ans.String())
+	}
+	for k, i := range idx {
+		it := items[i]
+		fn := u.fnNames[it.p]
+		model := ans.Xs[k+1]
+		real := lvOf(valA[it.n.id][it.p])
+		if fn == "borderImageOutset" && len(real.Xs) != len(model.Xs) {
+			out.Hit("lengths:skipped-repeated-to-4-values")
+			continue
+		}
+		out.Hit("lengths:" + fn)
+		out.Evaluations++
+		out.Nontrivial++
+		if why, isLen := cmpLV(model, real, it.p.String()); why != "" {
+			kind := "corr"
+			if isLen {
+				kind = "judge"
+			}
+			out.Add(res.Finding{Kind: kind, Op: kind + ":lengths", Input: input(it.n, it.p), Impl: real.String(), Model: model.String(), Reason: why,
+				Key: it.p.String(), Seed: caseSeed})
+		}
+	}
+	return nil
 }
